@@ -74,10 +74,35 @@ impl<W: 'static, R: 'static, T: 'static> EvaluationCell<W, R, T> {
                     .unwrap()
                     .scope_ancestor_and_cell(*ancestor_depth - ScopeDepth(1), *cell_idx);
                 match cell.as_ref(ancestor.template.as_ref()) {
-                    Self::Uninitialized | Self::PendingCapture { .. } => Ok(Self::PendingCapture {
+                    Self::Uninitialized => Ok(Self::PendingCapture {
                         depth: *ancestor_depth,
                         cell: *cell_idx,
                     }),
+                    Self::PendingCapture { depth, cell } => {
+                        // the forward function may have been fulfilled since the ancestor was created, in which
+                        // case we can capture its value now (the new function might outlive the scopes in between)
+                        let (mut depth, mut cell) = (*depth, *cell);
+                        let mut ancestor = ancestor;
+                        loop {
+                            let Some(next) = ancestor.try_scope_ancestor_at_depth(depth) else { break };
+                            ancestor = next;
+                            match ancestor.cells[cell].as_ref(ancestor.template.as_ref()) {
+                                Self::Value(v) => return Ok(Self::Value(v.clone())),
+                                Self::PendingCapture {
+                                    depth: next_depth,
+                                    cell: next_cell,
+                                } => {
+                                    depth = *next_depth;
+                                    cell = *next_cell;
+                                }
+                                _ => break,
+                            }
+                        }
+                        Ok(Self::PendingCapture {
+                            depth: *ancestor_depth,
+                            cell: *cell_idx,
+                        })
+                    }
                     Self::Value(v) => Ok(Self::Value(v.clone())),
                     Self::LocalRecourse => Ok(Self::Recourse {
                         depth: *ancestor_depth,
@@ -445,6 +470,14 @@ impl<'a, W: 'static, R: 'static, T: 'static> RuntimeScope<'a, W, R, T> {
                 }
             }
         }
+    }
+
+    fn try_scope_ancestor_at_depth(&self, depth: ScopeDepth) -> Option<&Self> {
+        let mut current = self;
+        for _ in 0..depth.0 {
+            current = current.scope_parent?;
+        }
+        Some(current)
     }
 
     fn scope_ancestor_at_depth(&self, depth: ScopeDepth) -> &Self {
